@@ -3,6 +3,7 @@
 package extendeddaemonset
 
 import (
+	corev1 "k8s.io/api/core/v1"
 	"time"
 
 	apiequality "k8s.io/apimachinery/pkg/api/equality"
@@ -30,6 +31,15 @@ func ZZ_C13_storedTemplateIsTheTemplate() {
 	}
 	if nondet.Bool("template.annotations") {
 		m.Annotations = map[string]string{"team": "x"}
+	}
+	// the template may already list tolerations — a custom one, or one of those every daemon pod gets anyway
+	// (a template written from the pod of a regular DaemonSet): they are part of the template all the same
+	switch nondet.String("template.tolerations", "none", "custom", "standard-not-ready") {
+	case "custom":
+		ds.Spec.Template.Spec.Tolerations = []corev1.Toleration{{Key: "dedicated", Operator: corev1.TolerationOpExists}}
+	case "standard-not-ready":
+		ds.Spec.Template.Spec.Tolerations = []corev1.Toleration{{Key: "node.kubernetes.io/not-ready", Operator: corev1.TolerationOpExists, Effect: corev1.TaintEffectNoExecute},
+			{Key: "dedicated", Operator: corev1.TolerationOpExists}}
 	}
 	want := ds.Spec.Template.DeepCopy()
 	wantHash, _ := comparison.GenerateMD5PodTemplateSpec(want)
